@@ -107,7 +107,7 @@ def tlc(module, cfg=None, workers=None, simulate=None, depth=None, env=None,
     cwd = cwd or SPEC
     cfg = cfg or module + ".cfg"
     md = fresh_dir(os.path.join(WORK, "tlc", "%s-%d-%s" % (module, os.getpid(), os.urandom(6).hex())))
-    jopts = ["-Xmx" + xmx, "-XX:+UseParallelGC", "-DTLA-Library=" + SPEC]
+    jopts = ["-Xmx" + xmx, "-XX:+UseParallelGC", "-XX:ParallelGCThreads=2", "-DTLA-Library=" + SPEC]
     if os.environ.get("VERIF_TLC_STRICT", "0") == "1":
         jopts.append("-Dtlc2.value.impl.LazyValue.off=true")   # call-by-value: every operator argument / LET evaluated once
     if dfs:
